@@ -2,7 +2,7 @@
 
 import numpy as np
 
-from ..dworld import DWorld, Hooks, run_ops, gen_dispatch_ops, gen_filter, FEATURE_TYPES, LEVELS
+from ..dworld import DWorld, Hooks, run_ops, gen_dispatch_ops, gen_filter, FEATURE_TYPES, LEVELS, mark_manual
 from ..instances import gen_instance, n_ops
 from ..util import stream
 
@@ -51,7 +51,7 @@ def generate(seed, tier):
     names, style = gen_filter(rng, None, p_none=0.6)
     spec = gen_instance(rng, sparse_ids=0.03, large=0.008, max_jobs=6 if big else 4, max_machines=5 if big else 4, max_ops=5 if big else 4,
                         positive=True if names else None)
-    obs = gen_observers(rng)
+    obs = mark_manual(stream(seed, "c11-manual"), gen_observers(rng), 0.08)
     if rng.random() < 0.7:
         obs.append({"t": "composite"})
         if rng.random() < 0.12:
